@@ -28,6 +28,13 @@ PARSING: `clang-14 -Xclang -ast-dump=json -fsyntax-only -DHAVE_CONFIG_H -D_GNU_S
 -DNEOLITH_VERIF -w <include_flags> file`; only code active under these flags on this
 platform is seen (an `#ifdef _WIN32` branch is invisible).
 
+EXTERNAL CALLEES (fail closed): every function declared outside the repository that takes a
+character pointer (or is variadic / has no prototype) and is called from a scanned function is
+listed in `extCallees` unless it is in FS_CALLEES (a site), FILLS or PASSTHROUGH; the Lean side
+(`ext_callees_classified`) accepts only names on its list of functions that do not take a file
+name: a new way to reach the file system (fopen64, openat2, statx, a libc wrapper ...) that
+is not in FS_CALLEES breaks that obligation instead of being invisible.
+
 SITE: a CallExpr whose callee (through casts/parens) is a DeclRefExpr to a function
 named in FS_CALLEES; one row per path-argument index of that callee.
 
@@ -57,9 +64,10 @@ body of the enclosing function, on the AST, with no semantic analysis.
    pointer argument) are NOT seen.  This is the stated limit of the rule.
  A fill whose destination is neither `V` nor an alias shape counts as an appending fill
  of every local/parameter pointer it mentions.
- Guard of V: a call `legal_path(x)`, x peeling to DeclRef V, ANYWHERE in the function
- (no dominance: the site may textually precede it, and it is not checked that the
- result is tested), provided no event of V lies textually after that call.
+ Guard of V: a call `legal_path(x)`, x peeling to DeclRef V, that ends textually BEFORE
+ the read of V that is classified (a site in front of its guard is not guarded; it is
+ not checked that the result is tested, nor that the call is on every path), provided
+ no event of V lies textually after that call.
 
  Nearest preceding definition (applied uniformly).  For a read of V at position t the
  reaching events are computed textually:
@@ -158,7 +166,18 @@ FS_CALLEES = {
     "mkdtemp": _P0, "tmpfile": [], "tempnam": _P0, "tmpnam": _P0, "popen": _P0, "system": _P0,
     "execl": _P0, "execlp": _P0, "execv": _P0, "execve": _P0, "execvp": _P0, "dlopen": _P0,
     "scandir": _P0, "nftw": _P0, "ftw": _P0,
+    # further ways to name a file (none is used today; a first use becomes a site row)
+    "openat2": _P1, "statx": _P1, "fstatat": _P1, "fstatat64": _P1, "newfstatat": _P1, "__fxstatat": [2],
+    "__lxstat": _P1, "__xstat64": _P1, "__lxstat64": _P1, "readlinkat": _P1, "fchmodat": _P1, "fchownat": _P1,
+    "utimensat": _P1, "futimesat": _P1, "lutimes": _P0, "euidaccess": _P0, "eaccess": _P0, "mkostemp": _P0,
+    "mkstemps": _P0, "truncate64": _P0, "renameat2": _P13, "glob": _P0, "glob64": _P0, "wordexp": _P0,
+    "execle": _P0, "execvpe": _P0, "posix_spawn": _P1, "posix_spawnp": _P1, "mkfifoat": _P1, "mknodat": _P1,
+    "setxattr": _P0, "getxattr": _P0, "listxattr": _P0, "removexattr": _P0, "pathconf": _P0, "statfs": _P0,
+    "statvfs": _P0, "mount": _P01, "umount": _P0, "umount2": _P0, "swapon": _P0, "acct": _P0,
+    "ftok": _P0, "shm_open": _P0, "shm_unlink": _P0, "sem_open": _P0, "mq_open": _P0, "dlmopen": _P1,
+    "canonicalize_file_name": _P0,
 }
+FS_CALLEES["__xstat"] = _P1
 # name -> (destination argument index, overwriting?, explicit source indices or None = all others)
 FILLS = {
     "sprintf": (0, True, None), "snprintf": (0, True, None), "vsprintf": (0, True, None),
@@ -182,7 +201,7 @@ LOOPS = ("WhileStmt", "DoStmt", "ForStmt")
 C_SUFFIXES = (".c", ".cc", ".cpp")
 
 
-LITERAL_FNS = ("legal_path",)
+LITERAL_FNS = ("legal_path", "check_valid_path", "inc_lexically_normal", "inc_open", "match_string")
 
 
 class SitesError(Exception):
@@ -752,7 +771,10 @@ class Fn:
                     p = self.bpos(s)
                     o = self.classify_expr(s, p, p, depth + 1, stack)
                     contribs.append((o, ev["via"], "fill"))
-        return self.join(contribs, cvp, v in self.guards, v, name)
+        # the guard must textually PRECEDE the read (the `legal_path (V)` call ends before the site argument begins):
+        # a site placed in front of its guard is not guarded
+        guarded = v in self.guards and any(g <= t for g in self.guard_pos.get(v, []))
+        return self.join(contribs, cvp, guarded, v, name)
 
     def join(self, contribs, cvp, guarded, v, name):
         origins = [o for (o, _, _) in contribs if o is not None]
@@ -928,7 +950,7 @@ def _analyze_file(job):
         fa = os.path.realpath(f)
         if fa == main_abs or (f.endswith(C_SUFFIXES) and relname(f) is not None):
             fns.append((n, f, relname(f)))
-    out = dict(rel=rel, included=sorted(included), sites=[], calls=[], addr=[], defs=[], cvp=[], lits=[])
+    out = dict(rel=rel, included=sorted(included), sites=[], calls=[], addr=[], defs=[], cvp=[], lits=[], ext=[])
     fobjs = []
     for (n, f, frel) in fns:
         try:
@@ -970,6 +992,13 @@ def _analyze_file(job):
                 pc = peel(c["inner"][0])
                 rid = (pc.get("referencedDecl") or {}).get("id")
                 df = decl_file.get(rid)
+                if name not in tu.fns and (df is None or relname(df) is None):
+                    # a function declared OUTSIDE the repository (libc, compiler builtin) that takes a character
+                    # pointer: it must be a known file-system callee (FS_CALLEES) or be classified as harmless on
+                    # the Lean side (`NV.C15.Sites.knownNonFs`) - an unknown name fails closed there
+                    fty = ((pc.get("referencedDecl") or {}).get("type") or {}).get("qualType") or qual(pc)
+                    if re.search(r"\bchar\b[^,()]*\*", fty.split("(", 1)[-1]) or "..." in fty or "(" not in fty:
+                        out["ext"].append(name)
                 if df is not None and not df.startswith("/usr/"):
                     origins = [_safe_classify(fn, a) for a in args]
                     out["calls"].append(dict(file=frel, tu=rel, caller=fn.name, callee=name, line=line,
@@ -1108,7 +1137,9 @@ def analyze(repo, bdir, include_flags, overrides=None, jobs=None):
     scanned = set(files)
     sites, calls, addr, defs = [], [], [], []
     cvp_calls, lit_rows = [], []
+    ext_callees = set()
     for r in results:
+        ext_callees.update(r.get("ext", []))
         cvp_calls += r.get("cvp", [])
         lit_rows += r.get("lits", [])
         scanned.update(r["included"])
@@ -1207,7 +1238,8 @@ def analyze(repo, bdir, include_flags, overrides=None, jobs=None):
     return dict(scanned=sorted(scanned), notScanned=not_scanned, fsCallees=sorted(FS_CALLEES),
                 sites=sites, calls=rows, fsEfuns=fs_efuns, loaderEfuns=loader_efuns, mediationApplies=med_applies,
                 cvpCalls=sorted(set((c["file"], c["fn"], c["op"], c["flag"]) for c in cvp_calls)),
-                literals=sorted(set((l["fn"], tuple(l["lits"])) for l in lit_rows)))
+                literals=sorted(set((l["fn"], tuple(l["lits"])) for l in lit_rows)),
+                extCallees=sorted(ext_callees - set(FS_CALLEES) - set(FILLS) - set(PASSTHROUGH)))
 
 
 def dedup(rows, keys):
@@ -1314,6 +1346,10 @@ def render(res):
     out.append(llist("literals", "(String × List String)",
                      ["(%s, [%s])" % (lstr(f), ", ".join(lstr(x) for x in ls)) for (f, ls) in res.get("literals", [])],
                      "character (c<code>) and string (s<text>) literals of legal_path / strip_name in source order"))
+    out.append(llist("extCallees", "String", [lstr(x) for x in res.get("extCallees", [])],
+                     "functions declared outside the repository (libc, builtins) that take a character pointer (or are "
+                     "variadic) and are called from the scanned files, other than the file-system callees searched "
+                     "for, the buffer-filling functions and the strchr family the translator interprets"))
     out.append(llist("loaderEfuns", "String", [lstr(x) for x in res.get("loaderEfuns", [])],
                      "efun implementations that reach the file system only through load_object / #include / "
                      "saved binaries"))
